@@ -23,8 +23,8 @@
 //
 //@harness handle_feedback_slow_start        props=C14,C03,C13 kind=full target=SendRateComp::handle_feedback needs=check_initial_send_rate,check_initial_loss_send_rate,check_eval_tcp_throughput,check_rrs_rate_limited_update,check_rrs_loss_increase_update,check_rrs_data_limited_update
 //@harness handle_feedback_throughput_eqn    props=C14,C03,C13 kind=full target=SendRateComp::handle_feedback needs=check_eval_tcp_throughput,check_rrs_rate_limited_update,check_rrs_loss_increase_update,check_rrs_data_limited_update
-//@harness nofeedback_expired_slow_start     props=C14,C03,C13 kind=full target=SendRateComp::nofeedback_expired needs=check_initial_send_rate
-//@harness nofeedback_expired_teqn_floor     props=C14,C03 kind=full target=SendRateComp::nofeedback_expired needs=check_initial_send_rate
+//@harness nofeedback_expired_slow_start     props=C14,C03,C13,C10 kind=full target=SendRateComp::nofeedback_expired needs=check_initial_send_rate
+//@harness nofeedback_expired_teqn_floor     props=C14,C03,C10 kind=full target=SendRateComp::nofeedback_expired needs=check_initial_send_rate
 //@harness nofeedback_expired_teqn_ceiling   props=C14,C13     kind=full target=SendRateComp::nofeedback_expired needs=check_initial_send_rate
 //@harness step_no_feedback_before_deadline  props=C14     kind=full target=SendRateComp::step
 //@harness step_await_send_is_inert          props=C14,C03 kind=full target=SendRateComp::step
